@@ -62,7 +62,7 @@ def bt_eval_source(blocks):
 
 def run(c):
     from vlib import parse_coq_print
-    c.go2coq_sources = ["c20.go", "c10.go"]
+    c.go2coq_sources = ["c20.go", "c10.go", "c10skel.go"]
     thorough = c.tier == "thorough"
     c.rule = ("patterns are abstracted from random type trees (sub-types -> $x/$_, parameter/field runs -> $*_, lengths -> $n; "
               "variables reused consistently and inconsistently) plus a hand-written catalogue (sequences in the middle, repeated "
@@ -87,10 +87,14 @@ def run(c):
         "go2coq c10tables: translates the `case opNamed:` clause of matchIdentical (straight-line string/bool code) into Gallina, "
         "reads builtinTypeByName, the ReplaceAll calls of Parse and the placeholder prefixes; RG.Types.GoStrings as the meaning of "
         "strings.Index / slicing (String.index / substring)",
+        "go2coq c10skel: reads the case clauses of Pattern.matchIdentical of the shape assertion / definitions / rejecting guards / one "
+        "return into MatchSkel.clause terms (calls of the matcher, their continuation arguments and the && structure explicit; guards "
+        "and component expressions as text, given their meaning by the environments of Inst_C10.v), lists every call of the matcher "
+        "with its continuation, and prints the statements of matchIdenticalFielder (transcribed by hand as MatchSkel.fielder_go)",
     ]
     c.build_theories()
     c.require_theories("Types/GType.v", "Types/XIdentical.v", "Types/TypePat.v", "Types/TypePatInst.v", "Types/TypePatClosed.v",
-                       "Types/C14Run.v", "Types/GoStrings.v")
+                       "Types/C14Run.v", "Types/GoStrings.v", "Types/MatchSkel.v")
     c.install_tmpl("C10/C10.v")
     c.coq_compile(["C10.v"])
     # ---- P over code translated from typematch.go on this run: the opNamed clause (vendored paths), the builtin names, Parse's rewriting
